@@ -254,3 +254,220 @@ Proof.
   - destruct H as [(I1 & I2 & _) ->]. split; auto. split; auto. intros a b Ha Hb. apply I2; auto.
   - unfold ks_inv. split; auto. split; [intros a b Hb [Ha|[_ Hb0]]; lia|auto].
 Qed.
+
+(* ---------------- TRACE current_Ks on reb_simulation_add: in-place expansion of the stride from n to n+1 *)
+(* state before row [r-1] is processed (rows are processed from n-1 down to 0, columns from n-1 down to 0):
+   rows >= r are in their new place, everything below linear position r*n is still the old matrix, and
+   positions that are not the new place of an old entry are never written *)
+Definition kg_inv (n : nat) (k0 k : list Z) (i j : nat) : Prop :=
+  length k = length k0 /\
+  (forall a b, a < n -> b < n -> (i < a \/ (a = i /\ j <= b)) -> nth (a * S n + b) k 0%Z = nth (a * n + b) k0 0%Z) /\
+  (forall q, q < i * n + j -> nth q k 0%Z = nth q k0 0%Z) /\
+  (forall q, (forall a b, a < n -> b < n -> q <> a * S n + b) -> nth q k 0%Z = nth q k0 0%Z).
+
+Lemma kg_row : forall cnt i n k0 k ob k' ob', cnt <= n -> i < n -> S n * S n <= length k0 ->
+  kg_inv n k0 k i cnt -> ks_grow_row cnt i n k ob = (k', ob') -> kg_inv n k0 k' i 0 /\ ob' = ob.
+Proof.
+  induction cnt; intros i n k0 k ob k' ob' Hc Hi Hl (I1 & I2 & I3 & I4) H; cbn [ks_grow_row] in H.
+  - inversion H; subst. split; auto. unfold kg_inv. auto.
+  - assert (Hs : i * n + cnt < S n * S n) by nia. assert (Hd : i * n + cnt + i < S n * S n) by nia.
+    rewrite !chk_in in H by lia. rewrite !Nat.add_0_r in H.
+    apply IHcnt with (k0 := k0) in H; auto; try lia.
+    unfold kg_inv. rewrite upd_length. split; auto. split; [|split].
+    + intros a b Ha Hb Hab. destruct (Nat.eq_dec (a * S n + b) (i * n + cnt + i)) as [E|NE].
+      * assert (E2 : a * S n + b = i * S n + cnt) by lia. apply lin_inj in E2; try lia. destruct E2; subst.
+        rewrite E. rewrite nth_upd_eq by lia. apply I3. lia.
+      * rewrite nth_upd_neq by lia. apply I2; auto. destruct Hab as [Hab|[Hab Hb2]]; [left; auto|].
+        subst a. right. split; auto. destruct (Nat.eq_dec b cnt); [subst; exfalso; apply NE; lia|lia].
+    + intros q Hq. rewrite nth_upd_neq by lia. apply I3. lia.
+    + intros q Hq. rewrite nth_upd_neq. { apply I4; auto. }
+      intro E. apply (Hq i cnt); try lia.
+Qed.
+
+Lemma kg_rows : forall cnt n k0 k ob k' ob', cnt <= n -> S n * S n <= length k0 ->
+  kg_inv n k0 k cnt 0 -> ks_grow cnt n k ob = (k', ob') -> kg_inv n k0 k' 0 0 /\ ob' = ob.
+Proof.
+  induction cnt; intros n k0 k ob k' ob' Hc Hl HI H; cbn [ks_grow] in H.
+  - inversion H; subst. auto.
+  - destruct (ks_grow_row n cnt n k ob) as [k1 ob1] eqn:ER.
+    apply kg_row with (k0 := k0) in ER; auto; try lia.
+    + destruct ER as [HI1 ->]. apply IHcnt with (k0 := k0) in H; auto; try lia.
+    + destruct HI as (I1 & I2 & I3 & I4). unfold kg_inv. split; auto. split; [|split]; auto.
+      * intros a b Ha Hb [Hab|[Hab Hb2]]; [|lia]. apply I2; auto. lia.
+      * intros q Hq. apply I3. lia.
+Qed.
+
+(* the expansion: every old entry (a,b) is found at (a,b) of the wider matrix, nothing else is written,
+   every access stays inside a block of (n+1)^2 entries, and -- because rows and columns are walked
+   downwards -- no entry is overwritten before it has been read (otherwise the first clause would fail) *)
+Theorem ks_grow_exact : forall n k ob k' ob', S n * S n <= length k -> ks_grow n n k ob = (k', ob') ->
+  ob' = ob /\ length k' = length k /\
+  (forall a b, a < n -> b < n -> nth (a * S n + b) k' 0%Z = nth (a * n + b) k 0%Z) /\
+  (forall q, (forall a b, a < n -> b < n -> q <> a * S n + b) -> nth q k' 0%Z = nth q k 0%Z).
+Proof.
+  intros n k ob k' ob' Hl H. apply kg_rows with (k0 := k) in H; auto.
+  - destruct H as [(I1 & I2 & _ & I4) ->]. repeat split; auto. intros a b Ha Hb. apply I2; auto. lia.
+  - unfold kg_inv. repeat split; auto. intros a b Ha Hb [Hab|[Hab Hb2]]; lia.
+Qed.
+
+Lemma classic_in : forall i cnt n (m : list Z) q,
+  (exists t, S i <= t < S i + cnt /\ q = Z.to_nat (nth t m 0%Z) * S n + n) \/
+  (forall t, S i <= t < S i + cnt -> q <> Z.to_nat (nth t m 0%Z) * S n + n).
+Proof.
+  intros i cnt n m q. induction cnt.
+  - right. intros; lia.
+  - destruct IHcnt as [[t [Ht E]]|NE].
+    + left. exists t. split; auto. lia.
+    + destruct (Nat.eq_dec q (Z.to_nat (nth (S i + cnt) m 0%Z) * S n + n)) as [E|NE2].
+      * left. exists (S i + cnt). split; auto. lia.
+      * right. intros t Ht. destruct (Nat.eq_dec t (S i + cnt)) as [->|]; auto. apply NE. lia.
+Qed.
+
+(* marking the new column: Ks[map[i]*N + n] = 1 for i = 1 .. encounter_N-1 *)
+Lemma ks_mark_spec : forall cnt i n m k ob k' ob', i + cnt <= length m ->
+  (forall t, i <= t < i + cnt -> (0 <= nth t m 0 < Z.of_nat n)%Z) -> S n * S n <= length k ->
+  ks_mark cnt i (S n) n m k ob = (k', ob') ->
+  ob' = ob /\ length k' = length k /\
+  (forall t, i <= t < i + cnt -> nth (Z.to_nat (nth t m 0%Z) * S n + n) k' 0%Z = 1%Z) /\
+  (forall q, (forall t, i <= t < i + cnt -> q <> Z.to_nat (nth t m 0%Z) * S n + n) -> nth q k' 0%Z = nth q k 0%Z).
+Proof.
+  induction cnt; intros i n m k ob k' ob' Hm Hv Hl H; cbn [ks_mark] in H.
+  - inversion H; subst. repeat split; auto. intros; lia.
+  - pose proof (Hv i ltac:(lia)) as Hvi.
+    assert (Hd : Z.to_nat (nth i m 0%Z) * S n + n < S n * S n) by nia.
+    rewrite !chk_in in H by lia. rewrite !Nat.add_0_r in H.
+    apply IHcnt in H; try (rewrite upd_length); try lia.
+    2:{ intros t Ht. apply Hv. lia. }
+    destruct H as (-> & H2 & H3 & H4). rewrite upd_length in H2. repeat split; auto.
+    + intros t Ht. destruct (Nat.eq_dec t i) as [->|].
+      * destruct (classic_in i cnt n m (Z.to_nat (nth i m 0%Z) * S n + n)) as [[t' [Ht' E]]|NE].
+        -- rewrite E. apply H3. lia.
+        -- rewrite H4 by (intros t' Ht'; apply NE; lia). apply nth_upd_eq. lia.
+      * apply H3. lia.
+    + intros q Hq. rewrite H4 by (intros t Ht; apply Hq; lia). apply nth_upd_neq. apply Hq. lia.
+Qed.
+
+(* ---------------- the hybrid arrays follow N through every add / remove (encounter step) *)
+(* ri_*.N_allocated = length (emap h) is the size of encounter_map AND of particles_backup,
+   particles_backup_kepler (they are (re)allocated together); current_Ks has N_allocated^2 entries *)
+Definition active (h : hyb) : bool :=
+  match kind h with
+  | INone => false
+  | IMerc => hmode h =? 1
+  | ITrace => (hmode h =? 1) || (hmode h =? 3)
+  end.
+Definition hyb_ok (s : state) (h : hyb) : Prop :=
+  vmap (sN s) (emap h) (eN h) /\ sN s <= length (emap h) /\
+  (kind h = ITrace -> length (emap h) * length (emap h) <= length (ks h)).
+
+Lemma extend_length : forall l n, length l < n -> length (extend l n) = n.
+Proof. intros. unfold extend. rewrite app_length, repeat_length. lia. Qed.
+Lemma extend_nth : forall l n a, a < length l -> nth a (extend l n) zd = nth a l zd.
+Proof. intros. unfold extend. now rewrite app_nth1. Qed.
+
+Lemma ks_mark_safe : forall cnt i n m k ob k' ob', i + cnt <= length m ->
+  (forall t, i <= t < i + cnt -> (0 <= nth t m 0 < Z.of_nat n)%Z) -> S n * S n <= length k ->
+  ks_mark cnt i (S n) n m k ob = (k', ob') -> ob' = ob /\ length k' = length k.
+Proof. intros. eapply ks_mark_spec in H2; eauto. destruct H2 as (? & ? & _). auto. Qed.
+
+(* adding a particle during the encounter step: all arrays cover the new N, the map stays a valid injection
+   (the new index appended), no access outside dcrit / encounter_map / current_Ks *)
+Theorem hadd_ok : forall s h p d s' h', active h = true -> hyb_ok s h -> hadd s h p d = (s', h') ->
+  hyb_ok s' h' /\ hoob h' = hoob h /\ sN s' = S (sN s) /\ eN h' = S (eN h).
+Proof.
+  intros s h p d s' h' Ha (V & HN & HK) H. unfold hadd in H.
+  assert (Hn : sN (add s p) = S (sN s)) by reflexivity.
+  remember (add s p) as s1 eqn:Es1. clear Es1. cbv zeta in H. injection H as Hs Hh. subst s'.
+  assert (E1 : S (sN s) - 1 = sN s) by lia.
+  pose proof (vmap_le _ _ _ V) as HeN. unfold active in Ha.
+  destruct (kind h) eqn:EK; [discriminate| |].
+  - destruct (hmode h =? 0) eqn:EM; [lia|]. rewrite Hn in *. rewrite !E1 in Hh. subst h'. cbn [hoob emap eN ks kind].
+    set (m := if length (emap h) <? S (sN s) then extend (emap h) (S (sN s)) else emap h).
+    set (dd := if length (dcrit h) <? S (sN s) then extend (dcrit h) (S (sN s)) else dcrit h).
+    assert (Lm : S (sN s) <= length m /\ forall a, a < eN h -> nth a m zd = nth a (emap h) zd).
+    { unfold m. destruct (Nat.ltb_spec (length (emap h)) (S (sN s))).
+      - rewrite extend_length by lia. split; auto. intros. apply extend_nth. destruct V. lia.
+      - split; auto. }
+    assert (Ld : S (sN s) <= length dd).
+    { unfold dd. destruct (Nat.ltb_spec (length (dcrit h)) (S (sN s))); [rewrite extend_length; lia|lia]. }
+    destruct Lm as [Lm1 Lm2].
+    rewrite !chk_in by lia. split; [|repeat split; auto; lia].
+    unfold hyb_ok. cbn [emap eN ks kind]. rewrite upd_length, Hn. split; [|split; [lia|intros; congruence]].
+    apply emap_add_valid with (m := emap h); auto. lia.
+  - destruct ((hmode h =? 1) || (hmode h =? 3)) eqn:EM; [|discriminate]. rewrite Hn in *. rewrite !E1 in Hh.
+    set (grow := length (emap h) <? S (sN s)) in *.
+    set (k0 := if grow then extend (ks h) (S (sN s) * S (sN s)) else ks h) in *.
+    set (m := if grow then extend (emap h) (S (sN s)) else emap h) in *.
+    specialize (HK eq_refl).
+    assert (Lm : S (sN s) <= length m /\ (forall a, a < length (emap h) -> nth a m zd = nth a (emap h) zd) /\ length (emap h) <= length m).
+    { unfold m, grow. destruct (Nat.ltb_spec (length (emap h)) (S (sN s))).
+      - rewrite extend_length by lia. repeat split; auto; try lia. intros. now apply extend_nth.
+      - repeat split; auto. }
+    assert (Lk : S (sN s) * S (sN s) <= length k0 /\ length m * length m <= length k0).
+    { unfold k0, m, grow. destruct (Nat.ltb_spec (length (emap h)) (S (sN s))).
+      - rewrite (extend_length (emap h)) by lia.
+        destruct (Nat.lt_ge_cases (length (ks h)) (S (sN s) * S (sN s))).
+        + rewrite extend_length by lia. lia.
+        + unfold extend. rewrite app_length. lia.
+      - split; [nia|auto]. }
+    destruct Lm as (Lm1 & Lm2 & Lm3). destruct Lk as [Lk1 Lk2]. destruct V as (V1 & V2 & V3).
+    destruct (ks_grow (sN s) (sN s) k0 (hoob h)) as [k1 ob1] eqn:EG.
+    apply ks_grow_exact in EG; auto. destruct EG as (-> & LG & _).
+    destruct (ks_mark (eN h - 1) 1 (S (sN s)) (sN s) m k1 (hoob h)) as [k2 ob2] eqn:EMk.
+    apply ks_mark_safe in EMk; try lia.
+    2:{ intros t Ht. change 0%Z with zd. rewrite Lm2 by lia. apply V3. lia. }
+    destruct EMk as [-> LM]. subst h'. cbn [hoob emap eN ks kind]. rewrite chk_in by lia.
+    split; [|repeat split; auto; lia].
+    unfold hyb_ok. cbn [emap eN ks kind]. rewrite upd_length, Hn. split; [|split; [lia|intros; lia]].
+    apply emap_add_valid with (m := emap h); auto; try lia. { unfold vmap; auto. } intros. apply Lm2. lia.
+Qed.
+
+Lemma remove_idx_keep_N : forall s z,
+  ((Z.of_nat (sN s) <=? z) || (z <? 0))%Z = false -> negb (sNvar s =? 0) = false -> tree s = false ->
+  sN (fst (remove_idx s z true)) = sN s - 1.
+Proof.
+  intros s z H1 H2 H3. unfold remove_idx. rewrite H1, H2, H3. cbn [andb negb].
+  destruct (sN s =? 1) eqn:E; cbn [andb].
+  - cbn. lia.
+  - destruct (shift _ _ _ _). reflexivity.
+Qed.
+
+(* removing (collision) a particle that is in the encounter map during the encounter step: the arrays still
+   cover N-1, the map is again a valid injection into [0,N-1), no access outside the arrays *)
+Theorem hremove_ok : forall s h z keep s' h' r p, active h = true -> hyb_ok s h ->
+  p < eN h -> nth p (emap h) zd = z -> hremove s h z keep = (s', h', r) -> r <> RFail ->
+  hyb_ok s' h' /\ hoob h' = hoob h /\ sN s' = sN s - 1 /\ eN h' = eN h - 1.
+Proof.
+  intros s h z keep s' h' r p Ha (V & HN & HK) Hp Hz H Hr. unfold hremove in H.
+  destruct ((Z.of_nat (sN s) <=? z) || (z <? 0))%Z eqn:E1; [inversion H; subst; contradiction|].
+  destruct (negb (sNvar s =? 0)) eqn:E2; [inversion H; subst; contradiction|].
+  assert (HH : hybrid_kind h = true) by (unfold active, hybrid_kind in *; destruct (kind h); auto; discriminate).
+  rewrite HH, orb_true_r in H. cbn [andb] in H.
+  destruct (tree s) eqn:E3; [inversion H; subst; contradiction|].
+  pose proof (remove_idx_keep_N s z E1 E2 E3) as HNs.
+  destruct (remove_idx s z true) as [s1 r1]. cbn [fst] in HNs.
+  pose proof V as (V1 & V2 & V3).
+  destruct (emap_loop (eN h) 0 z (emap h) false (-1)%Z (hoob h)) as [[m e] ob'] eqn:EL.
+  pose proof EL as EL0. pose proof EL as EL2. apply emap_loop_safe in EL2; [|discriminate|lia]. destruct EL2 as [-> LM].
+  eapply emap_remove_valid in EL; eauto. destruct EL as (-> & _ & VM & _).
+  unfold active in Ha. destruct (kind h) eqn:EK; [discriminate| |].
+  -     set (nd := length (dcrit h)) in *.
+    assert (exists d, (if (0 <? nd) && (Z.to_nat z <? nd)
+             then dshift (Nat.min (sN s - 1) (nd - 1)) 0 (Z.to_nat z) (dcrit h) (hoob h) else (dcrit h, hoob h)) = (d, hoob h)) as [d ED].
+    { destruct ((0 <? nd) && (Z.to_nat z <? nd)) eqn:E; [|eauto].
+      destruct (dshift _ _ _ _ _) as [d ob] eqn:EDS. apply dshift_safe in EDS; [|unfold nd in *; lia].
+      destruct EDS as [-> _]. eauto. }
+    rewrite ED in H.
+    rewrite Ha in H.
+    rewrite EL0 in H. inversion H; subst; clear H. cbn [hoob emap eN ks kind].
+    split; [|repeat split; auto].
+    unfold hyb_ok. cbn [emap eN ks kind]. rewrite HNs. split; [exact VM|split; [lia|intros; congruence]].
+  - destruct ((hmode h =? 1) || (hmode h =? 3)) eqn:EM; [|discriminate].
+    specialize (HK eq_refl).
+    destruct (ks_rows (sN s - 1) 0 (sN s - 1) (sN s) (Z.to_nat z) (ks h) (hoob h)) as [k ob''] eqn:EKS.
+    assert (HS : sN s = S (sN s - 1)) by lia. rewrite HS in EKS at 3.
+    apply ks_remove_exact in EKS; [|rewrite <- HS; nia]. destruct EKS as (-> & LK & _).
+    inversion H; subst; clear H. cbn [hoob emap eN ks kind].
+    split; [|repeat split; auto].
+    unfold hyb_ok. cbn [emap eN ks kind]. rewrite HNs. split; [exact VM|split; [lia|intros; lia]].
+Qed.
